@@ -178,6 +178,8 @@ pub fn run_search<F: Flav>(w: &World<F>, root: K, cfg: &Cfg, pred: &Pred) -> Sea
 pub struct GraphCase<F: Flav> {
     pub w: World<F>,
     pub m: Model,
+    /// the edge-reversed model (what transposed searches are judged against)
+    pub mr: Model,
     pub edges: Vec<(K, K)>,
     pub prios: Vec<i32>,
 }
@@ -190,15 +192,39 @@ pub fn build<F: Flav>(prios: &[i32], edges: &[(K, K)]) -> Result<GraphCase<F>, S
     }
     let o = observe::<F>(&w)?;
     let m = Model::from_obs(&o, F::DIRECTED);
+    // the reversed model is derived from the OUT-lists alone (not from what iter_in reports): a transposed
+    // traversal must report exactly the stored edges, whatever the in-lists say (C01 owns their agreement)
+    let mut mr = Model {
+        n: m.n,
+        out: vec![vec![]; m.n],
+        inn: m.out.clone(),
+        directed: m.directed,
+    };
+    for u in 0..m.n {
+        for (v, e) in &m.out[u] {
+            if (*v as usize) < m.n {
+                mr.out[*v as usize].push((u as K, *e));
+            }
+        }
+    }
     Ok(GraphCase {
         w,
         m,
+        mr,
         edges: edges.to_vec(),
         prios: prios.to_vec(),
     })
 }
 
 impl<F: Flav> GraphCase<F> {
+    /// model for a (possibly transposed) search
+    pub fn model(&self, tr: bool) -> &Model {
+        if tr {
+            &self.mr
+        } else {
+            &self.m
+        }
+    }
     pub fn describe(&self) -> String {
         format!(
             "{} n={} prios={:?} connects={:?}",
@@ -264,16 +290,21 @@ fn algo_name(a: Algo) -> &'static str {
 }
 
 /// C04 / C05 / C06(ii): target search with path validity.
-fn check_target_search<F: Flav>(g: &GraphCase<F>, algo: Algo, root: K, target: K, pred: &Pred, alt: bool, rep: &mut Report) -> Vec<String> {
+fn check_target_search<F: Flav>(g: &GraphCase<F>, algo: Algo, tr: bool, root: K, target: K, pred: &Pred, alt: bool, rep: &mut Report) -> Vec<String> {
     let mut v = vec![];
     let a = acc(pred);
-    let d = g.m.dist(root, &a);
+    let gm = g.model(tr);
+    let d = gm.dist(root, &a);
     let expect = d[target as usize];
     let mut cfg = Cfg::new(algo, Mode::Path);
     cfg.target = Some(target);
+    cfg.transpose = tr;
     cfg.meth = meth_for(pred, alt);
     let r = run_search::<F>(&g.w, root, &cfg, pred);
     rep.count("evaluations");
+    if tr {
+        rep.count("transposed_searches");
+    }
     v.extend(r.errs.iter().cloned());
     let mut found_path = None;
     match &r.out {
@@ -283,7 +314,7 @@ fn check_target_search<F: Flav>(g: &GraphCase<F>, algo: Algo, root: K, target: K
                 v.push(format!("{}.search_path: target {} is reachable from {} (distance {}) but no path was returned", algo_name(algo), target, root, expect.unwrap()));
             } else {
                 rep.count("unreachable_targets");
-                if !pred.is_all() && g.m.dist(root, &|_, _, _| true)[target as usize].is_some() {
+                if !pred.is_all() && gm.dist(root, &|_, _, _| true)[target as usize].is_some() {
                     rep.count("filter_disconnects_target");
                 }
             }
@@ -293,7 +324,7 @@ fn check_target_search<F: Flav>(g: &GraphCase<F>, algo: Algo, root: K, target: K
             if expect.is_none() {
                 v.push(format!("{}.search_path returned a path to unreachable target {}", algo_name(algo), target));
             }
-            check_walk(&g.m, pred, root, target, p, &mut v);
+            check_walk(gm, pred, root, target, p, &mut v);
             match algo {
                 Algo::Bfs => {
                     if let Some(dd) = expect {
@@ -681,7 +712,6 @@ fn nontrivial<F: Flav>(rep: &mut Report, g: &GraphCase<F>, tag: &str) {
 }
 
 pub fn eval_graph<F: Flav>(g: &GraphCase<F>, ctx: &mut EvalCtx, rep: &mut Report) {
-    let n = g.w.n();
     rep.count("graphs");
     rep.count(&format!("{}.graphs", F::NAME));
     if g.edges.iter().any(|(a, b)| a == b) {
@@ -693,13 +723,23 @@ pub fn eval_graph<F: Flav>(g: &GraphCase<F>, ctx: &mut EvalCtx, rep: &mut Report
             rep.count("graphs_with_parallel_edges");
         }
     }
+    eval_graph_dir::<F>(g, ctx, rep, false);
+    if F::DIRECTED {
+        // the same oracles on the transposed configurations, judged against the reversed model
+        eval_graph_dir::<F>(g, ctx, rep, true);
+    }
+}
+
+fn eval_graph_dir<F: Flav>(g: &GraphCase<F>, ctx: &mut EvalCtx, rep: &mut Report, tr: bool) {
+    let n = g.w.n();
+    let gm = g.model(tr);
     match ctx.prop {
         "C04" | "C05" => {
             let algo = if ctx.prop == "C04" { Algo::Bfs } else { Algo::Dfs };
-            let preds = preds_for(g, &mut ctx.rng, ctx.exhaustive, false);
+            let preds = preds_for(g, &mut ctx.rng, ctx.exhaustive, tr);
             for (r, t) in roots_targets(n, ctx) {
                 for (pi, p) in preds.iter().enumerate() {
-                    let m = check_target_search::<F>(g, algo, r, t, p, pi % 2 == 0, rep);
+                    let m = check_target_search::<F>(g, algo, tr, r, t, p, pi % 2 == 0, rep);
                     nontrivial(rep, g, &format!("{}>{}|{}", r, t, p.short()));
                     if !m.is_empty() {
                         viol(rep, ctx.prop, g, &format!("{}.search_path/search", algo_name(algo)), r, Some(t), p, &m);
@@ -708,19 +748,20 @@ pub fn eval_graph<F: Flav>(g: &GraphCase<F>, ctx: &mut EvalCtx, rep: &mut Report
             }
         }
         "C06" => {
-            let preds = preds_for(g, &mut ctx.rng, ctx.exhaustive && g.edges.len() <= 3, false);
+            let preds = preds_for(g, &mut ctx.rng, ctx.exhaustive && g.edges.len() <= 3, tr);
             for algo in [Algo::PfsMin, Algo::PfsMax] {
                 for r in some_roots(n, ctx) {
                     for (pi, p) in preds.iter().enumerate() {
                         // (i) expansion order on a full traversal (no target)
                         let mut cfg = Cfg::new(algo, Mode::Path);
+                        cfg.transpose = tr;
                         cfg.meth = if p.is_all() { Meth::ForEach } else { Meth::Filter };
                         let run = run_search::<F>(&g.w, r, &cfg, p);
                         rep.count("evaluations");
                         let mut m = run.errs.clone();
                         match &run.out {
                             Err(e) => m.push(format!("{} traversal panicked: {}", algo_name(algo), e)),
-                            Ok(_) => m.extend(check_pfs_order(&g.m, &g.prios, r, algo == Algo::PfsMax, &run.log, p)),
+                            Ok(_) => m.extend(check_pfs_order(gm, &g.prios, r, algo == Algo::PfsMax, &run.log, p)),
                         }
                         let blocks = {
                             let mut b = 0;
@@ -746,18 +787,19 @@ pub fn eval_graph<F: Flav>(g: &GraphCase<F>, ctx: &mut EvalCtx, rep: &mut Report
                             if t == r {
                                 continue;
                             }
-                            let m = check_target_search::<F>(g, algo, r, t, p, pi % 2 == 0, rep);
+                            let m = check_target_search::<F>(g, algo, tr, r, t, p, pi % 2 == 0, rep);
                             if !m.is_empty() {
                                 viol(rep, "C06", g, &format!("{}.search_path/search", algo_name(algo)), r, Some(t), p, &m);
                             }
                             // expansion order also holds on the prefix run with a target
                             let mut cfg = Cfg::new(algo, Mode::Path);
+                        cfg.transpose = tr;
                             cfg.target = Some(t);
                             cfg.meth = Meth::Filter;
                             let run = run_search::<F>(&g.w, r, &cfg, p);
                             rep.count("evaluations");
                             if run.out.is_ok() {
-                                let m = check_pfs_order(&g.m, &g.prios, r, algo == Algo::PfsMax, &run.log, p);
+                                let m = check_pfs_order(gm, &g.prios, r, algo == Algo::PfsMax, &run.log, p);
                                 if !m.is_empty() {
                                     viol(rep, "C06", g, &format!("{} expansion order (with target)", algo_name(algo)), r, Some(t), p, &m);
                                 }
@@ -768,7 +810,7 @@ pub fn eval_graph<F: Flav>(g: &GraphCase<F>, ctx: &mut EvalCtx, rep: &mut Report
             }
         }
         "C07" => {
-            let preds = preds_for(g, &mut ctx.rng, ctx.exhaustive && g.edges.len() <= 3, false);
+            let preds = preds_for(g, &mut ctx.rng, ctx.exhaustive && g.edges.len() <= 3, tr);
             let mut cfgs: Vec<Cfg> = vec![];
             for algo in [Algo::Bfs, Algo::Dfs, Algo::PfsMin, Algo::PfsMax] {
                 cfgs.push(Cfg::new(algo, Mode::Search));
@@ -782,13 +824,14 @@ pub fn eval_graph<F: Flav>(g: &GraphCase<F>, ctx: &mut EvalCtx, rep: &mut Report
                 for c in &cfgs {
                     // for_each, no target
                     let mut cfg = *c;
+                    cfg.transpose = tr;
                     cfg.meth = Meth::ForEach;
                     let run = run_search::<F>(&g.w, r, &cfg, &Pred::All);
                     rep.count("evaluations");
                     let mut m = run.errs.clone();
                     match &run.out {
                         Err(e) => m.push(format!("{} panicked: {}", cfg.short(), e)),
-                        Ok(_) => m.extend(check_foreach_once(&g.m, r, &run.log, &cfg.short())),
+                        Ok(_) => m.extend(check_foreach_once(gm, r, &run.log, &cfg.short())),
                     }
                     if run.log.len() >= 3 {
                         rep.count("foreach_logs_ge3_calls");
@@ -801,7 +844,7 @@ pub fn eval_graph<F: Flav>(g: &GraphCase<F>, ctx: &mut EvalCtx, rep: &mut Report
                 // filters: rejected edges never appear in any result; results only through accepted edges
                 for p in preds.iter().filter(|p| !p.is_all()) {
                     let a = acc(p);
-                    let reach = g.m.reach(r, &a);
+                    let reach = gm.reach(r, &a);
                     let mut all_cfgs: Vec<Cfg> = vec![];
                     let targets: Vec<K> = if !ctx.focus.is_empty() { ctx.focus.clone() } else if n > 12 { (0..4).map(|_| ctx.rng.below(n) as K).collect() } else { (0..n as K).collect() };
                     for algo in [Algo::Bfs, Algo::Dfs, Algo::PfsMin, Algo::PfsMax] {
@@ -822,6 +865,7 @@ pub fn eval_graph<F: Flav>(g: &GraphCase<F>, ctx: &mut EvalCtx, rep: &mut Report
                     }
                     for c in all_cfgs {
                         let mut cfg = c;
+                        cfg.transpose = tr;
                         cfg.meth = Meth::Filter;
                         let run = run_search::<F>(&g.w, r, &cfg, p);
                         rep.count("evaluations");
@@ -841,13 +885,21 @@ pub fn eval_graph<F: Flav>(g: &GraphCase<F>, ctx: &mut EvalCtx, rep: &mut Report
                                 if cfg.mode == Mode::Path && !reach[cfg.target.unwrap() as usize] {
                                     m.push(format!("{}: found target {} that is unreachable through accepted edges", cfg.short(), cfg.target.unwrap()));
                                 }
-                                if cfg.mode == Mode::Cycle && g.m.shortest_cycle(r, &a).is_none() {
+                                if cfg.mode == Mode::Cycle && gm.shortest_cycle(r, &a).is_none() {
                                     m.push(format!("{}: found a cycle although none exists through accepted edges", cfg.short()));
                                 }
                             }
                             Ok(PlainOut::Node(Some(k))) => {
                                 if !reach[*k as usize] {
                                     m.push(format!("{}: found node {} that is unreachable through accepted edges", cfg.short(), k));
+                                }
+                            }
+                            Ok(PlainOut::Node(None)) | Ok(PlainOut::Path(None)) => {
+                                // reachability is decided in the graph of accepted edges only: a rejected edge must not hide a target
+                                if let (Mode::Search | Mode::Path, Some(t)) = (cfg.mode, cfg.target) {
+                                    if reach[t as usize] {
+                                        m.push(format!("{}: target {} is reachable through accepted edges but was not found", cfg.short(), t));
+                                    }
                                 }
                             }
                             Ok(PlainOut::Nodes(ns)) => {
@@ -866,7 +918,7 @@ pub fn eval_graph<F: Flav>(g: &GraphCase<F>, ctx: &mut EvalCtx, rep: &mut Report
                         }
                         // the closure itself only ever sees true edges
                         for l in &run.log {
-                            if !g.m.has_edge(l.0, l.1, l.2) {
+                            if !gm.has_edge(l.0, l.1, l.2) {
                                 m.push(format!("{}: filter called with ({},{},e{}) which is not an edge", cfg.short(), l.0, l.1, l.2.id));
                             }
                         }
@@ -879,16 +931,22 @@ pub fn eval_graph<F: Flav>(g: &GraphCase<F>, ctx: &mut EvalCtx, rep: &mut Report
             }
         }
         "C09" => {
-            let preds = preds_for(g, &mut ctx.rng, ctx.exhaustive, false);
+            let preds = preds_for(g, &mut ctx.rng, ctx.exhaustive, tr);
             for algo in [Algo::Bfs, Algo::Dfs, Algo::PfsMin, Algo::PfsMax] {
                 for r in some_roots(n, ctx) {
                     for (pi, p) in preds.iter().enumerate() {
                         let mut cfg = Cfg::new(algo, Mode::Cycle);
+                        cfg.transpose = tr;
                         cfg.meth = meth_for(p, pi % 2 == 0);
+                        if pi % 3 == 2 {
+                            // a target set earlier on the same builder: search_cycle still looks for the root
+                            cfg.target = Some(((r as usize + 1 + pi) % n) as K);
+                            rep.count("cycle_searches_with_preset_target");
+                        }
                         let run = run_search::<F>(&g.w, r, &cfg, p);
                         rep.count("evaluations");
                         let mut m = run.errs.clone();
-                        m.extend(check_cycle(&g.m, F::DIRECTED, algo, r, p, &run.out, rep));
+                        m.extend(check_cycle(gm, F::DIRECTED, algo, r, p, &run.out, rep));
                         nontrivial(rep, g, &format!("cy|{:?}|{}|{}", algo, r, p.short()));
                         if !m.is_empty() {
                             viol(rep, "C09", g, &format!("{}.search_cycle", algo_name(algo)), r, None, p, &m);
@@ -898,11 +956,12 @@ pub fn eval_graph<F: Flav>(g: &GraphCase<F>, ctx: &mut EvalCtx, rep: &mut Report
             }
         }
         "C10" => {
-            let preds = preds_for(g, &mut ctx.rng, ctx.exhaustive, false);
+            let preds = preds_for(g, &mut ctx.rng, ctx.exhaustive, tr);
             for algo in [Algo::Pre, Algo::Post] {
                 for r in some_roots(n, ctx) {
                     for (pi, p) in preds.iter().enumerate() {
                         let mut c1 = Cfg::new(algo, Mode::Nodes);
+                        c1.transpose = tr;
                         c1.meth = meth_for(p, pi % 2 == 0);
                         let mut c2 = c1;
                         c2.mode = Mode::Edges;
@@ -911,7 +970,7 @@ pub fn eval_graph<F: Flav>(g: &GraphCase<F>, ctx: &mut EvalCtx, rep: &mut Report
                         rep.add("evaluations", 2);
                         let mut m = r1.errs.clone();
                         m.extend(r2.errs.iter().cloned());
-                        m.extend(check_order(&g.m, algo, r, p, &r1.out, &r2.out, rep));
+                        m.extend(check_order(gm, algo, r, p, &r1.out, &r2.out, rep));
                         nontrivial(rep, g, &format!("or|{:?}|{}|{}", algo, r, p.short()));
                         if !m.is_empty() {
                             viol(rep, "C10", g, &format!("{} order", algo_name(algo)), r, None, p, &m);
@@ -994,12 +1053,17 @@ pub fn eval_c08<F: Flav>(prios: &[i32], edges: &[(K, K)], ctx: &mut EvalCtx, rep
         }
         for c in cfgs {
             for (pi, p) in preds.iter().enumerate() {
-                for meth in [Meth::Filter, Meth::ForEach] {
-                    if meth == Meth::ForEach && pi != 0 {
+                for meth in [Meth::Filter, Meth::ForEach, Meth::None] {
+                    if meth != Meth::Filter && pi != 0 {
                         continue;
                     }
                     let mut ct = c;
                     ct.transpose = true;
+                    // transpose() configures, it does not toggle: called twice it is still transposed
+                    ct.twice = (pi + r as usize) % 4 == 3 || meth == Meth::None && r % 2 == 1;
+                    if ct.twice {
+                        rep.count("double_transpose_configurations");
+                    }
                     ct.meth = meth;
                     let mut cp = c;
                     cp.meth = meth;
